@@ -136,7 +136,7 @@ def run_shard(ctx):
     ctx.col.extra["exhaustive"] = True
     n, steps = t["walks"]
     machine.run_walks(ctx, C02Oracle, n_walks=ctx.share(n), steps=steps, profile="history",
-                      cfg_kwargs={"allow_stray": True})
+                      cfg_kwargs={"allow_stray": True, "allow_default_feature": True})
 
 
 def replay(obj, col):
